@@ -27,6 +27,7 @@ type C15Script struct {
 	Cfg   SessCfg   `json:"cfg"`
 	Own   []uint32  `json:"own"`            // values served to the victim's instance-tag draws
 	Lazy  bool      `json:"lazy,omitempty"` // the victim has not generated its own tag before the first message arrives
+	Both  bool      `json:"both,omitempty"` // the victim's policy allows version 2 as well (the peer speaks version 3)
 	Steps []TagStep `json:"steps"`
 }
 
@@ -141,7 +142,11 @@ func runC15(sc *C15Script) *sim.Outcome {
 	o := &sim.Outcome{}
 	cfg := sc.Cfg
 	cfg.V = 3
-	m := newMix(cfg, 0)
+	polA := 0
+	if sc.Both {
+		polA = sim.PolV2
+	}
+	m := newMix(cfg, polA)
 	r := &c15run{m: m, o: o}
 	for _, t := range sc.Own {
 		m.A.R.Force4 = append(m.A.R.Force4, ref.PutU32(nil, t))
@@ -332,6 +337,54 @@ func runC15(sc *C15Script) *sim.Outcome {
 				r.deliverHostile(f, stag, rtag, "a fragment")
 			}
 			o.Class(fmt.Sprintf("frag-s%d-r%d", st.ST%7, st.RT%7))
+		case "fragmid":
+			// the bound peer's text arrives in pieces; between the pieces a fragment with other tags (reserved, foreign,
+			// addressed elsewhere) - or one in version 2 framing, which carries none - comes by. Whatever becomes of
+			// the intruder, the peer's message is still delivered, and nothing else is
+			if !established || !m.A.C.IsEncrypted() || !m.R.Encrypted {
+				continue
+			}
+			m.Settle(nil, nil)
+			r.nText++
+			t := token(1, r.nText) + " in several pieces, long enough to be cut"
+			whole := m.R.Send([]byte(t))
+			n := 3 + st.M%3
+			sz := (len(whole) + n - 1) / n
+			var pieces [][]byte
+			for i := 0; i < len(whole); i += sz {
+				e := i + sz
+				if e > len(whole) {
+					e = len(whole)
+				}
+				pieces = append(pieces, whole[i:e])
+			}
+			stag, rtag := r.tagOf(st.ST, si), r.tagOf(st.RT, si+3)
+			at := 1 + st.M%(len(pieces)-1)
+			var got []byte
+			for i, pc := range pieces {
+				if i == at {
+					intruder := ref.MakeFragment(true, stag, rtag, 1+st.M%2, 2, []byte("intruder"))
+					if st.M%4 == 3 {
+						intruder = ref.MakeFragment(false, 0, 0, i+1, len(pieces), []byte("dGFnbGVzcw"))
+					}
+					if !(stag == r.bound && (rtag == 0 || rtag == own)) || st.M%4 == 3 {
+						ci := m.AReceive(intruder)
+						if ci.HasPl {
+							return o.Fail("C15/foreign-acted-on", "a fragment with sender tag %#x / receiver tag %#x (or without tags) that arrived between the bound peer's pieces made Receive return %.40q", stag, rtag, ci.Plain)
+						}
+						m.QtoR = nil
+					}
+				}
+				c := m.AReceive(ref.MakeFragment(true, m.R.OurTag, m.R.TheirTag, i+1, len(pieces), pc))
+				if c.HasPl {
+					got = c.Plain
+				}
+			}
+			if string(got) != t {
+				return o.Fail("C15/genuine-disturbed", "the bound peer's text, sent in %d pieces, was not delivered after a fragment with sender tag %#x / receiver tag %#x (version 2 framing: %v) came by between pieces %d and %d", len(pieces), stag, rtag, st.M%4 == 3, at, at+1)
+			}
+			o.Class("intruder-between-pieces")
+			r.hits++
 		case "extract":
 			// inputs that carry no tags
 			for _, w := range [][]byte{[]byte("?OTR:"), []byte("?OTR:AAMC"), []byte("?OTR|"), []byte("?OTR|1234|5678,"), []byte("?OTR,1,2,x,"), []byte("?OTRv23?"), []byte("hello"), nil, []byte("?OTR:====."), []byte("?OTR:AAM."),
@@ -361,9 +414,9 @@ func init() { reg("C15tags", runC15); reg("C15matrix", runC15) }
 
 func TestProp_C15_Tags(t *testing.T) {
 	defer sim.MarkCompleted("C15tags", false)
-	kinds := []string{"hostile", "hostile", "hostile", "handshake", "handshake", "text", "text", "vsend", "fake", "fake", "fake", "frag", "frag", "extract", "requery", "requery", "peerend", "peerend", "rehandshake"}
+	kinds := []string{"hostile", "hostile", "hostile", "handshake", "handshake", "text", "text", "vsend", "fake", "fake", "fake", "frag", "frag", "extract", "requery", "requery", "peerend", "peerend", "rehandshake", "fragmid", "fragmid"}
 	rapid.Check(t, func(rt *rapid.T) {
-		sc := &C15Script{Cfg: genSessCfg(rt), Lazy: rapid.IntRange(0, 2).Draw(rt, "lazy") == 0}
+		sc := &C15Script{Cfg: genSessCfg(rt), Lazy: rapid.IntRange(0, 2).Draw(rt, "lazy") == 0, Both: rapid.IntRange(0, 2).Draw(rt, "both") == 0}
 		sc.Cfg.FragA, sc.Cfg.FragB = 0, 0
 		nOwn := rapid.SampledFrom([]int{0, 1, 2, 3, 5, 8, 12}).Draw(rt, "nown")
 		for i := 0; i < nOwn; i++ {
@@ -391,6 +444,8 @@ func TestProp_C15_Matrix(t *testing.T) {
 				{{K: "handshake", M: 1}, {K: "frag", ST: st, RT: rt}, {K: "text"}},
 				{{K: "handshake"}, {K: "hostile", ST: st, RT: rt, M: 2}, {K: "text"}},
 				{{K: "handshake"}, {K: "requery"}, {K: "hostile", ST: st, RT: rt}, {K: "fake", ST: st, RT: rt}},
+				{{K: "handshake"}, {K: "fragmid", ST: st, RT: rt}, {K: "fragmid", ST: st, RT: rt, M: 3}, {K: "text"}},
+				{{K: "handshake", M: 1}, {K: "fragmid", ST: st, RT: rt, M: 1}, {K: "fragmid", ST: st, RT: rt, M: 2}, {K: "vsend"}},
 				// the peer has ended the session (the user has closed it, or not yet): messages of other instances are still not for us
 				{{K: "handshake"}, {K: "peerend"}, {K: "hostile", ST: st, RT: rt}, {K: "frag", ST: st, RT: rt}, {K: "rehandshake"}, {K: "text"}},
 				{{K: "handshake", M: 1}, {K: "peerend", M: 1}, {K: "hostile", ST: st, RT: rt}, {K: "rehandshake", M: 1}, {K: "text"}, {K: "vsend"}},
@@ -404,6 +459,9 @@ func TestProp_C15_Matrix(t *testing.T) {
 						continue
 					}
 					sim.Judge(t, "C15matrix", &C15Script{Cfg: SessCfg{V: 3, SeedA: 500, SeedB: 601, KeyA: 2, KeyB: 5}, Steps: shape, Lazy: lazy})
+					if len(shape) > 1 && shape[1].K == "fragmid" {
+						sim.Judge(t, "C15matrix", &C15Script{Cfg: SessCfg{V: 3, SeedA: 500, SeedB: 601, KeyA: 2, KeyB: 5}, Steps: shape, Lazy: lazy, Both: true})
+					}
 				}
 			}
 		}
